@@ -258,6 +258,13 @@ func buildConnModel(v *tunView) *connModel {
 					amb = lastRx
 					m.mode[lastRx] = -2
 				}
+				if amb >= 0 && v.rx[amb].F.OK && v.rx[amb].F.Svc == svcConnRes && ev.at.T-v.rx[amb].At.T <= v.eps {
+					// a connect response (a stray or forged one) read in the instant the loop left
+					// its connection: the connect exchange that starts now may take it for its
+					// answer, or the loop may have dropped it - there is no telling
+					m.giveUp, m.giveUpAt = true, v.rx[amb].At
+					return m
+				}
 				endEpoch(ev.at, "async-reconnect", amb)
 				m.asyncReconnects++
 				mode = mdConnecting
